@@ -3,7 +3,8 @@ from .. import spec
 from ..gen import G
 from ..common import run_apps, app, out_of, sig, base_files, TODAY
 
-THEOREMS = ['day_foods', 'item_ingredients', 'item_totals', 'register_days']
+THEOREMS = ['day_foods', 'item_ingredients', 'item_totals', 'register_days', 'default_layout_follows_template',
+            'left_layout_follows_template', 'old_layout_follows_source', 'template_formats_well_formed']
 LEVEL = 'proof'
 RULE = ('random logs (repeated foods in a day, negative/zero quantities, foods in and not in the book, elements logged directly that also '
         'come from a recipe, empty recipes, empty days) x random nested books; the default register is parsed and compared with the '
